@@ -1173,6 +1173,10 @@ class InstrOps:
     def i_Send(self, fr, env, ins, guard, state):
         ch = self.val(env, ins["chan"])
         x = self.val(env, ins["x"])
+        c = getattr(self, "conc", None)
+        if c is not None and c.recording is not None:
+            c.chan_send_blocking(ch, x, guard, ins.get("pos"))
+            return
         ok = self.chan_send(ch, x, guard)
         # sequential mode: a send that would block forever ends the path
         if ok is not True:
@@ -1230,6 +1234,13 @@ class InstrOps:
         return val, okrecv, succ
 
     def chan_recv(self, fr, ch, guard, ins, state):
+        c = getattr(self, "conc", None)
+        if c is not None and c.recording is not None:
+            t, d = self.prog.under(ins["xt"])
+            v, okv = c.chan_recv_blocking(ch, guard, ins.get("pos"), d["elem"])
+            if ins.get("commaok"):
+                return TupleV([v, okv])
+            return v
         val, okrecv, succ = self.chan_try_recv(ch, guard)
         if succ is not True:
             state["guard"] = b_and(guard, succ)  # would block forever in sequential mode
